@@ -51,6 +51,8 @@ def cases(tier, seed):
 
 
 FIXED = [
+    # a wide network (64 channels per type, default scalar+vector mid types): code paths gated on the layer width
+    {"cls": "ResNet", "D": 2, "equivariant": True, "in_sig": [[[0, 0], 1], [[1, 0], 1]], "out_sig": [[[1, 0], 1], [[0, 0], 1]], "depth": 64, "num_blocks": 1, "num_conv": 1, "num_downsamples": 1, "activation": "gelu", "norm": False, "preact": False, "bias": "auto", "bank_ks": [0, 1, 2], "torus": [True, True], "N": [4, 4]},
     {"cls": "UNet", "D": 2, "equivariant": True, "in_sig": [[[0, 1], 2]], "out_sig": [[[0, 1], 1]], "depth": 2, "num_blocks": 1, "num_conv": 1, "num_downsamples": 1, "activation": "relu", "norm": False, "preact": False, "bias": "auto", "bank_ks": [0, 1, 2], "torus": [True, True], "N": [4, 4]},
     {"cls": "UNet", "D": 2, "equivariant": True, "in_sig": [[[0, 0], 1], [[0, 1], 1]], "out_sig": [[[0, 1], 1], [[0, 0], 2]], "depth": 1, "num_blocks": 1, "num_conv": 1, "num_downsamples": 2, "activation": "gelu", "norm": True, "preact": False, "bias": "mean", "bank_ks": [0, 1, 2], "torus": [True, True], "N": [8, 4]},
     {"cls": "ResNet", "D": 2, "equivariant": True, "in_sig": [[[1, 1], 2], [[0, 0], 1]], "out_sig": [[[1, 1], 1]], "depth": 2, "num_blocks": 1, "num_conv": 2, "num_downsamples": 1, "activation": "tanh", "norm": True, "preact": True, "bias": "auto", "bank_ks": [0, 1, 2], "torus": [False, True], "N": [5, 4]},
